@@ -10,7 +10,7 @@ META = {
                  "KeyRef<K>) has user-provided copy operations which do not copy the borrowing member from the source but "
                  "rebuild it from the object's own storage; R19.2 the user-provided assignment of CdnsBlock assigns every data "
                  "member and CdnsBlockRead re-seats its cursors on its own containers; R19.3 copy/move constructors and move "
-                 "assignment delegate to those assignments (no member-wise default bypasses them). R19.1 accepts copy-and-swap: a copy built with the copy constructor and every data member swapped with it. R19.2 follows a copy-aside temporary (constructor initialisers, member stores) through a pairwise swap helper.",
+                 "assignment delegate to those assignments (no member-wise default bypasses them). R19.1 accepts copy-and-swap: a copy built with the copy constructor and every data member swapped with it. R19.2 follows a copy-aside temporary (constructor initialisers, member stores) through a pairwise swap helper; a validity-guarded memo (cdnsverif/memos.py: a bool member, false initially, only tested and assigned constants, and the members read only where it is true) may be reset instead of copied; the base part may be spelled out member by member. R19.3 also accepts a special member that performs exactly the statements of the copy assignment.",
     "explanation": "Ownership/borrowing rule over record facts (special members implicit/defaulted/user, field types) and "
                    "the bodies of the copy operations. Every obligation is enumerated and must be discharged; with the "
                    "trusted base (std containers copy by value) the rule implies independence of source and copy.",
